@@ -103,6 +103,8 @@ pub async fn restore(
     // and, from an older band, entries below the same path: restoring those would follow the
     // link and write outside the destination.
     let mut restored_symlinks: HashSet<String> = HashSet::new();
+    // When overwriting: directories in the destination already known not to be symlinks.
+    let mut checked_directories: HashSet<PathBuf> = HashSet::new();
     while let Some(entry) = stitch.next().await {
         task.set_name(format!("Restore {}", entry.apath));
         if !restored_symlinks.is_empty() {
@@ -120,6 +122,14 @@ pub async fn restore(
             }
         }
         let path = destination.join(&entry.apath[1..]);
+        if options.overwrite {
+            if let Err(source) =
+                remove_symlinks_in_the_way(destination, &entry, &mut checked_directories)
+            {
+                monitor.error(Error::RestoreFile { path, source });
+                continue;
+            }
+        }
         match entry.kind() {
             Kind::Dir => {
                 monitor.count(Counter::Dirs, 1);
@@ -169,6 +179,39 @@ pub async fn restore(
         }
     }
     apply_deferrals(&deferrals, monitor.clone())?;
+    Ok(())
+}
+
+/// A destination that is being overwritten can already hold symlinks, for example from
+/// restoring an earlier version into it. One at or above the entry's path would be followed
+/// and the restore would write outside the destination: remove it, so that the entry (or the
+/// directory above it) replaces it.
+fn remove_symlinks_in_the_way(
+    destination: &Path,
+    entry: &IndexEntry,
+    checked_directories: &mut HashSet<PathBuf>,
+) -> io::Result<()> {
+    let mut path = destination.to_owned();
+    let mut components = entry.apath[1..]
+        .split('/')
+        .filter(|c| !c.is_empty())
+        .peekable();
+    while let Some(component) = components.next() {
+        path.push(component);
+        let is_leaf = components.peek().is_none();
+        if !is_leaf && checked_directories.contains(&path) {
+            continue;
+        }
+        match path.symlink_metadata() {
+            Ok(metadata) if metadata.file_type().is_symlink() => std::fs::remove_file(&path)?,
+            Ok(_) => {}
+            Err(err) if err.kind() == io::ErrorKind::NotFound => break,
+            Err(err) => return Err(err),
+        }
+        if !is_leaf {
+            checked_directories.insert(path.clone());
+        }
+    }
     Ok(())
 }
 
